@@ -138,10 +138,17 @@ pub fn load_known(dir: &Path) -> Vec<Known> {
     v
 }
 
+/// Which build of the simulator this is: "release" (debug assertions and overflow checks on, the main pass) or
+/// "relna" (both off, as in a shipped build; the secondary pass). A replay file names the build that produced it.
+pub fn build_profile() -> &'static str {
+    if cfg!(debug_assertions) { "release" } else { "relna" }
+}
+
 pub fn replay_json(def: &PropDef, scen: &Scen, seed: u64, idx: u64, choices: &[u32], v: &Violation, digest: u64, trace: &[String]) -> J {
     J::obj()
         .set("property", J::s(def.id))
         .set("scenario", J::s(scen.name))
+        .set("profile", J::s(build_profile()))
         .set("seed", J::i(seed))
         .set("run_index", J::i(idx))
         .set("oracle", J::s(&v.oracle))
@@ -391,7 +398,7 @@ pub fn run_property(def: &PropDef, cfg: &BatchCfg) -> i32 {
         let orig = exec(scen.f, Chooser::replay(f.choices.clone()), true, false);
         let reproduced = matches!(&orig.result, Err(v) if v.key() == vkey);
         let dir = cfg.verif_dir.join("replays");
-        let base = format!("{}-{}-{}-{}", def.id, scen.name, cfg.seed, f.idx);
+        let base = format!("{}-{}-{}-{}{}", def.id, scen.name, cfg.seed, f.idx, if build_profile() == "relna" { "-relna" } else { "" });
         let orig_path = dir.join(format!("{base}.orig.json"));
         write_file(&orig_path, &replay_json(def, scen, cfg.seed, f.idx, &f.choices, &f.v, orig.cx.digest, &orig.cx.events).to_string_pretty());
         if !reproduced {
@@ -459,7 +466,9 @@ pub fn run_property(def: &PropDef, cfg: &BatchCfg) -> i32 {
         .set("stub_components", J::Arr(def.stub.iter().map(|s| J::s(s)).collect()))
         .set("known_findings_hit", J::Arr(known_hits.iter().map(|s| J::s(s)).collect()))
         .set("planned_runs", J::i(total))
-        .set("miri_thread_schedules", miri_json.unwrap_or(J::Null));
+        .set("miri_thread_schedules", miri_json.unwrap_or(J::Null))
+        .set("build_profile", J::s(if build_profile() == "release" { "debug assertions and overflow checks ON in the library and the harness" } else { "debug assertions and overflow checks OFF" }))
+        .set("secondary_pass_without_debug_assertions", match std::env::var("VERIF_SECONDARY_SUMMARY") { Ok(s) if !s.is_empty() => J::s(&s), _ => J::Null });
     let ev = J::obj()
         .set("property_id", J::s(def.id))
         .set("tier", J::s(cfg.tier.name()))
@@ -472,6 +481,7 @@ pub fn run_property(def: &PropDef, cfg: &BatchCfg) -> i32 {
     if cfg.write_evidence {
         write_file(&cfg.verif_dir.join("evidence").join(format!("{}.json", def.id)), &ev.to_string_pretty());
     }
+    if build_profile() == "relna" { print!("secondary pass (no debug assertions / overflow checks): "); }
     println!("property={} tier={} runs={} distinct_nontrivial={} skeletons={} steps={} wall={:.1}s violations={} known={}",
         def.id, cfg.tier.name(), a.done, distinct_nontrivial, a.skeletons.len(), a.stats.steps, wall, violations, known_hits.len());
     exit
